@@ -1,17 +1,27 @@
 """C15 — deadlock detection agrees with the real wait-for relation.
 
 Engine A (explicit-state BFS, states copied with deepcopy: controller/watchdog are plain
-dataclasses) over the real CellCycleController + Watchdog. Alphabet: start (restart of a
-finished id), acquire(op,r) (incl. re-entrant and pre-empting), release(op,r), complete(op),
-abort(op), watchdog.execute() for both victim strategies.
+dataclasses) over the real CellCycleController + Watchdog (+ PriorityInheritance). Alphabet:
+start (restart of a finished id), acquire(op,r) (incl. re-entrant and pre-empting),
+release(op,r) (also by an operation that does not own r), release_all(op), complete(op), abort(op),
+watchdog.execute() for both victim strategies (two watchdog objects that live as long as the
+history), and per root: register(r) of a resource after the operations started,
+check_and_boost / clear_all of a PriorityInheritance. Roots vary priorities (lowest = oldest,
+lowest = youngest, ties, a negative one), start instants (distinct / equal), the preemptible
+subset, the watchdog's timeout options (None / never firing), the watchdog_exempt flag, and a
+judged prefix that pre-positions contention, a 2-cycle, a 3-cycle or two overlapping cycles.
 
-Reference (written from the statement): op X *waits for* r from the moment acquire(X,r)
-returned BLOCKED until X obtains r, completes or is aborted/killed; the wait-for graph has an
-edge X -> Y (r) iff X waits for r, Y is the CURRENT owner of r, Y != X and Y is live.
+Reference (written from the statement, fed ONLY by the results of the public calls): the owner
+and hold count of r follow the LockResults / release results / ends of operations; op X
+*waits for* r from the moment acquire(X,r) returned BLOCKED until X obtains r, completes or is
+aborted/killed; the wait-for graph has an edge X -> Y (r) iff X waits for r, Y is the CURRENT
+owner of r, Y != X and Y is live.
 Oracle after every transition: check_deadlock() is non-None  <=>  the reference graph has a
 cycle; every reported agent is live and every reported (waiter, blocking, resource) is a
-reference edge. After watchdog.execute(): exactly the reported cycle loses its
-lowest-priority / oldest member, which owns nothing and is no longer active.
+reference edge; asking twice gives the same report and stats()['pending_deadlocks'] gives the
+same verdict. After watchdog.execute(): exactly the reported cycle loses its lowest-priority /
+oldest member (ties: any tied member; after a boost: lowest as started or lowest as boosted),
+which owns nothing and is no longer active.
 
 Finding keys. When the verdicts disagree because the implementation's recorded edge set has
 drifted from the reference graph, the key is the *maintenance step that made the involved
@@ -23,6 +33,7 @@ own key, so those are never masked by the graph-maintenance keys.
 from __future__ import annotations
 
 import copy
+import datetime as _dt
 
 from mc import common, explore, vclock
 
@@ -31,6 +42,7 @@ import operon_ai.coordination.priority as _priority_mod
 import operon_ai.coordination.types as _types_mod
 import operon_ai.coordination.watchdog as _watchdog_mod
 from operon_ai.coordination.controller import CellCycleController
+from operon_ai.coordination.priority import PriorityInheritance
 from operon_ai.coordination.types import LockResult, ResourceLock
 from operon_ai.coordination.watchdog import ApoptosisReason, Watchdog
 
@@ -38,10 +50,12 @@ vclock.install_global([_types_mod, _controller_mod, _watchdog_mod, _priority_mod
 
 MAX_HOLD = 2  # re-entrant acquisitions explored up to this hold count
 OBTAINED = (LockResult.ACQUIRED, LockResult.REENTRANT, LockResult.PREEMPTED)
+STRATEGIES = ("priority", "oldest")
+NEVER = _dt.timedelta(days=3650)  # a timeout option that is set but cannot fire within any explored history
 
 
 class St:
-    __slots__ = ("root", "prio", "clock", "ctl", "live", "seq", "waits", "why", "last")
+    __slots__ = ("root", "prio", "clock", "ctl", "ctx", "born", "pcur", "reg", "own", "waits", "why", "last", "wd", "pi")
 
 
 # ---------------------------------------------------------------- reference helpers
@@ -51,11 +65,12 @@ def impl_edges(st):
 
 
 def ref_edges(st):
+    """wait-for graph from the observer's bookkeeping only (st.waits / st.own / st.ctx are fed by call results)"""
     out = set()
     for (w, r) in st.waits:
-        o = st.ctl.resources[r].owner
-        if o is not None and o != w and o in st.live and w in st.live:
-            out.add((w, o, r))
+        cur = st.own.get(r)
+        if cur is not None and cur[0] != w and cur[0] in st.ctx and w in st.ctx:
+            out.add((w, cur[0], r))
     return out
 
 
@@ -93,68 +108,93 @@ class Model:
     def build(self, root):
         st = St()
         st.root = root
-        st.prio = {o: p for o, p in root["ops"]}
+        st.prio = {o: p for o, p, _t in root["ops"]}
         st.clock = vclock.VClock()
         vclock.use(st.clock)
         st.ctl = CellCycleController()
+        st.reg = []
         for r in root["res"]:
-            st.ctl.register_resource(ResourceLock(resource_id=r, allow_preemption=r in root["preempt"]))
-        st.live = {}
-        st.seq = 0
+            if r not in root["late"]:
+                self._register(st, r)
+        kw = dict(max_operation_time=NEVER, starvation_timeout=NEVER, progress_timeout=NEVER) if root["wd"] == "never" else {}
+        st.wd = {s: Watchdog(deadlock_strategy=s, **kw) for s in STRATEGIES}
+        st.pi = PriorityInheritance()
+        st.ctx, st.born, st.pcur, st.own = {}, {}, {}, {}
         st.waits = set()
         st.why = {}
         st.last = None
-        for o, _p in root["ops"]:
+        t = 0
+        for o, _p, t0 in root["ops"]:  # t0: start instant (equal instants = equal ages)
+            st.clock.advance(t0 - t)
+            t = t0
             self._start(st, o)
-        for o, r in root.get("init", ()):  # pre-positioned roots: operation o already holds r
-            st.clock.advance(1)
-            got = st.ctl.acquire_resource(st.ctl.active_operations[o], r)
-            if got != LockResult.ACQUIRED:
-                raise common.HarnessError(f"root set-up: {o} {r} -> {got}")
+        for op in root["pre"]:  # pre-positioned roots; the prefix is judged step by step in run()
+            self.step(st, op)
         return st
 
     def clone(self, st):
         # checkpoints hold lambdas only and are never mutated: share them
         return copy.deepcopy(st, {id(st.ctl.checkpoints): st.ctl.checkpoints, id(st.root): st.root, id(st.prio): st.prio})
 
+    def _register(self, st, r):
+        st.ctl.register_resource(ResourceLock(resource_id=r, allow_preemption=r in st.root["preempt"]))
+        st.reg.append(r)
+
     def _start(self, st, o):
-        st.clock.advance(1)
         ctx = st.ctl.start_operation(o, "agent_" + o, priority=st.prio[o])
         # created_at's dataclass default was bound to the real clock at import: pass it explicitly
         ctx.created_at = st.clock.now()
         ctx.phase_entered_at = st.clock.now()
-        st.live[o] = st.seq
-        st.seq += 1
+        if o in st.root["exempt"]:
+            ctx.metadata["watchdog_exempt"] = True
+        st.ctx[o] = ctx  # the handle the caller got back; all later calls for o go through it
+        st.born[o] = st.clock.now()
+        st.pcur[o] = st.prio[o]
 
-    # -- alphabet ----------------------------------------------------------
+    # -- alphabet (enabled-ness is decided from the observer's bookkeeping, never from the implementation's fields)
     def ops(self, st):
         out = []
-        for o, _p in st.root["ops"]:
-            if o not in st.live:
+        for o, _p, _t in st.root["ops"]:
+            if o not in st.ctx:
                 out.append(("start", o))
                 continue
-            ctx = st.ctl.active_operations[o]
-            for r in st.root["res"]:
-                lock = st.ctl.resources[r]
-                if not (lock.owner == o and lock.hold_count >= MAX_HOLD):
+            for r in st.reg:
+                cur = st.own.get(r)
+                if not (cur is not None and cur[0] == o and cur[1] >= MAX_HOLD):
                     out.append(("acquire", o, r))
-                if r in ctx.acquired_resources:
+                if cur is not None:  # by its owner, or by somebody else while it is owned (must change nothing)
                     out.append(("release", o, r))
+            if any(c[0] == o for c in st.own.values()):
+                out.append(("release_all", o))
             out.append(("complete", o))
             out.append(("abort", o))
-        out.append(("watchdog", "priority"))
-        out.append(("watchdog", "oldest"))
+        for s in STRATEGIES:
+            out.append(("watchdog", s))
+        for r in st.root["late"]:
+            if r not in st.reg:
+                out.append(("register", r))
+        if st.root["boost"]:
+            out.append(("boost",))
+            out.append(("unboost",))
         return out
 
     # -- canonical state ---------------------------------------------------
     def canon(self, st):
-        order = sorted(st.live, key=lambda o: st.live[o])
+        live = sorted(st.ctx)
+        times = sorted({st.born[o] for o in live})
+        age = tuple((o, times.index(st.born[o])) for o in live)
+        # dict order of the active operations / pending requests / recorded edges decides which cycle the DFS
+        # reports first: keep it
+        act = tuple(st.ctl.active_operations)
         res = tuple((r, l.owner, l.hold_count, l.owner_priority) for r, l in sorted(st.ctl.resources.items()))
-        held = tuple((o, tuple(sorted(st.ctl.active_operations[o].acquired_resources))) for o in sorted(st.live))
-        # dict / list order of the recorded edges decides which cycle the DFS reports first: keep it
+        own = tuple(sorted((r, c[0], c[1]) for r, c in st.own.items()))
+        per = tuple((o, st.ctx[o].priority, st.pcur[o], tuple(sorted(st.ctx[o].acquired_resources)),
+                     tuple(st.ctx[o].pending_requests)) for o in live)
         edges = tuple((w, tuple(deps)) for w, deps in st.ctl.dependency_graph.edges.items())
-        act = tuple(sorted(st.ctl.active_operations))
-        return (tuple(order), act, res, held, tuple(sorted(st.waits)), edges, tuple(sorted(st.why.items())))
+        boosts = tuple(sorted((o, b.original_priority) for o, b in st.pi.active_boosts.items()))
+        wdh = tuple(tuple(e.operation_id for e in st.wd[s].events) for s in STRATEGIES)
+        return (age, act, res, own, per, tuple(sorted(st.waits)), edges, tuple(sorted(st.why.items())), boosts, wdh,
+                tuple(st.reg))
 
     def observe(self, st):
         return st.last
@@ -174,22 +214,40 @@ class Model:
             if kind == "start":
                 self._start(st, op[1])
             elif kind == "acquire":
-                ctx = ctl.active_operations[op[1]]
-                result = ctl.acquire_resource(ctx, op[2])
+                o, r = op[1], op[2]
+                result = ctl.acquire_resource(st.ctx[o], r)
+                cur = st.own.get(r)
                 if result == LockResult.BLOCKED:
-                    st.waits.add((op[1], op[2]))
+                    st.waits.add((o, r))
                 elif result in OBTAINED:
-                    st.waits.discard((op[1], op[2]))
-                    if ctl.resources[op[2]].owner != op[1]:
+                    st.waits.discard((o, r))
+                    if result == LockResult.REENTRANT and cur is not None and cur[0] == o:
+                        st.own[r] = (o, cur[1] + 1)
+                    else:
+                        st.own[r] = (o, 1)
+                    if ctl.resources[r].owner != o:
                         v.append(("acquire-result-without-ownership", f"acquire returned {result} but owner is "
-                                  f"{ctl.resources[op[2]].owner!r}"))
+                                  f"{ctl.resources[r].owner!r}"))
                 else:
                     v.append(("acquire-unexpected-result", f"acquire returned {result!r}"))
             elif kind == "release":
-                ctx = ctl.active_operations[op[1]]
-                result = ctl.release_resource(ctx, op[2])
+                o, r = op[1], op[2]
+                result = ctl.release_resource(st.ctx[o], r)
+                cur = st.own.get(r)
+                if result:
+                    if cur is not None and cur[0] == o:
+                        if cur[1] > 1:
+                            st.own[r] = (o, cur[1] - 1)
+                        else:
+                            del st.own[r]
+                    else:
+                        v.append(("release-by-non-owner-succeeded", f"release({o},{r}) returned {result!r} but the "
+                                  f"history makes {cur} the owner of {r}"))
+            elif kind == "release_all":
+                ctl.release_all_resources(st.ctx[op[1]])
+                st.own = {r: c for r, c in st.own.items() if c[0] != op[1]}
             elif kind in ("complete", "abort"):
-                ctx = ctl.active_operations[op[1]]
+                ctx = st.ctx[op[1]]
                 if kind == "complete":
                     ctl.complete_operation(ctx)
                 else:
@@ -197,12 +255,27 @@ class Model:
                 ended.append(op[1])
             elif kind == "watchdog":
                 v += self._watchdog(st, op[1], ended, extra_info)
+            elif kind == "register":
+                self._register(st, op[1])
+            elif kind == "boost":
+                boosts = st.pi.check_and_boost(ctl)
+                for b in boosts:
+                    if b.operation_id in st.pcur:
+                        st.pcur[b.operation_id] = b.boosted_priority
+                result = len(boosts)
+            elif kind == "unboost":
+                st.pi.clear_all(ctl)
+                for o in st.pcur:
+                    st.pcur[o] = st.prio[o]
             else:
                 raise AssertionError(op)
         except Exception as e:  # noqa: BLE001
             return [(f"raises:{kind}:{type(e).__name__}", f"{op} raised {type(e).__name__}: {e}")]
         for o in ended:
-            st.live.pop(o, None)
+            st.ctx.pop(o, None)
+            st.born.pop(o, None)
+            st.pcur.pop(o, None)
+            st.own = {r: c for r, c in st.own.items() if c[0] != o}
             st.waits = {(w, r) for (w, r) in st.waits if w != o}
         rname = result.value if isinstance(result, LockResult) else result
         st.last = (kind, rname, len(ended))
@@ -220,8 +293,17 @@ class Model:
         # ---- the oracle proper: verdict and reported cycle
         try:
             info = ctl.check_deadlock()
+            again = ctl.check_deadlock()  # the check is a query: asking twice gives the same answer
+            pending = ctl.stats().get("pending_deadlocks")  # the same verdict through the other public entry point
         except Exception as e:  # noqa: BLE001
             return v + [(f"raises:check_deadlock:{type(e).__name__}", f"check_deadlock raised {type(e).__name__}: {e}")]
+        if (info is None) != (again is None) or (info is not None and (list(info.agents), list(info.cycle)) !=
+                                                 (list(again.agents), list(again.cycle))):
+            v.append(("check-deadlock-not-repeatable", f"two consecutive check_deadlock() calls: "
+                      f"{info and (info.agents, info.cycle)} then {again and (again.agents, again.cycle)}"))
+        if bool(pending) != (info is not None):
+            v.append(("stats-pending-deadlocks-disagrees", f"stats()['pending_deadlocks'] = {pending!r} while "
+                      f"check_deadlock() is {'a cycle' if info is not None else 'None'}"))
         oncyc = cycle_edges(ref1)
         st.last = (kind, rname, len(ended), info is not None, bool(oncyc), bool(missing), bool(extra))
         if info is None and oncyc:
@@ -233,27 +315,30 @@ class Model:
         elif info is not None:
             rep = [tuple(t) for t in info.cycle]
             bad = [t for t in rep if t not in ref1]
-            dead = [a for a in info.agents if a not in st.live]
+            dead = [a for a in info.agents if a not in st.ctx]
             if not oncyc:
                 causes = sorted({why.get(("extra",) + t, "phantom-deadlock:reported-edge-never-recorded") for t in bad}) \
                     or ["phantom-deadlock:graph-in-sync"]
                 for c in causes:
                     v.append((c, f"PHANTOM deadlock: check_deadlock() reports agents {info.agents} cycle {rep} but the "
-                                 f"reference graph {sorted(ref1)} has no cycle (owners "
-                                 f"{ {r: l.owner for r, l in sorted(ctl.resources.items())} }, live {sorted(st.live)}); "
+                                 f"reference graph {sorted(ref1)} has no cycle (owners by history "
+                                 f"{ {r: c[0] for r, c in sorted(st.own.items())} }, lock owners "
+                                 f"{ {r: l.owner for r, l in sorted(ctl.resources.items())} }, live {sorted(st.ctx)}); "
                                  f"reported edges that are not real: {bad}"))
             else:
                 for t in bad:
                     v.append((why.get(("extra",) + t, "reported-edge-not-in-reference"),
                               f"WRONG cycle: reported edge {t} is not a real wait-for edge (reference {sorted(ref1)})"))
                 if dead and not bad:
-                    v.append(("cycle-reports-dead-op", f"reported agents {info.agents}, live {sorted(st.live)}"))
+                    v.append(("cycle-reports-dead-op", f"reported agents {info.agents}, live {sorted(st.ctx)}"))
                 if not bad and not dead:
                     n = len(info.agents)
-                    ok = len(rep) == n and n >= 2 and all(
-                        rep[i][0] == info.agents[i] and rep[i][1] == info.agents[(i + 1) % n] for i in range(n))
+                    ok = len(rep) == n and n >= 2 and len(set(info.agents)) == n and all(
+                        rep[i][0] == info.agents[i] and rep[i][1] == info.agents[(i + 1) % n] for i in range(n)) \
+                        and list(info.resources) == [t[2] for t in rep]
                     if not ok:
-                        v.append(("reported-cycle-malformed", f"agents {info.agents} edges {rep} do not chain into a cycle"))
+                        v.append(("reported-cycle-malformed", f"agents {info.agents} edges {rep} resources "
+                                  f"{info.resources} do not chain into one cycle"))
         if kind == "watchdog" and info is not None and extra_info.get("victim") in info.agents:
             v.append(("cycle-survives-watchdog", f"victim {extra_info['victim']} still in reported cycle {info.agents}"))
         return v
@@ -263,8 +348,8 @@ class Model:
         ctl = st.ctl
         v = []
         info0 = ctl.check_deadlock()  # agrees with the reference: the previous transition was judged
-        holds0 = {r: (l.owner, l.hold_count) for r, l in ctl.resources.items()}
-        wd = Watchdog(deadlock_strategy=strategy)
+        own0 = dict(st.own)
+        wd = st.wd[strategy]  # the same watchdog object for the whole history
         events = wd.execute(ctl)
         other = [e for e in events if e.reason != ApoptosisReason.DEADLOCK]
         dl = [e for e in events if e.reason == ApoptosisReason.DEADLOCK]
@@ -282,25 +367,27 @@ class Model:
         victim = dl[0].operation_id
         extra_info["victim"] = victim
         members = list(info0.agents)
-        if victim not in members:
-            v.append(("victim-not-in-cycle", f"victim {victim} not in {members}"))
+        if victim not in members or victim not in st.ctx:
+            v.append(("victim-not-in-cycle", f"victim {victim} not in {members} (live {sorted(st.ctx)})"))
         elif strategy == "priority":
-            lo = min(st.prio[m] for m in members)
-            if st.prio[victim] != lo:
-                v.append(("victim-not-lowest-priority", f"victim {victim} prio {st.prio[victim]}, cycle "
-                          f"{[(m, st.prio[m]) for m in members]}"))
+            # after a boost "priority" has two readings (as started / as boosted): the weaker one is asserted
+            base = [st.prio[m] for m in members if m in st.ctx]
+            curp = [st.pcur[m] for m in members if m in st.ctx]
+            if st.prio[victim] != min(base) and st.pcur[victim] != min(curp):
+                v.append(("victim-not-lowest-priority", f"victim {victim}, cycle (op, priority at start, priority after "
+                          f"boosts) {[(m, st.prio.get(m), st.pcur.get(m)) for m in members]}"))
         else:
-            first = min(st.live[m] for m in members)
-            if st.live[victim] != first:
-                v.append(("victim-not-oldest", f"victim {victim} start#{st.live[victim]}, cycle "
-                          f"{[(m, st.live[m]) for m in members]}"))
+            first = min(st.born[m] for m in members if m in st.ctx)
+            if st.born[victim] != first:
+                v.append(("victim-not-oldest", f"victim {victim} started {st.born[victim].time()}, cycle "
+                          f"{[(m, str(st.born[m].time())) for m in members if m in st.ctx]}"))
         if victim in ctl.active_operations:
             v.append(("victim-still-active", f"{victim} still in active_operations"))
         owns = sorted(r for r, l in ctl.resources.items() if l.owner == victim)
         if owns:
-            reent = any(holds0[r][0] == victim and holds0[r][1] > 1 for r in owns)
+            reent = any(own0.get(r, (None, 0))[0] == victim and own0[r][1] > 1 for r in owns)
             v.append(("victim-still-owns" + (":reentrant-hold" if reent else ""),
-                      f"killed {victim} still owns {owns} (holds before the kill {holds0})"))
+                      f"killed {victim} still owns {owns} (holds before the kill {own0})"))
         return v
 
     # -- classification of a newly wrong edge ------------------------------
@@ -312,7 +399,9 @@ class Model:
             if kind == "acquire":
                 return "edge-dropped-on-acquire"
             if kind == "release":
-                return "edge-dropped-on-reentrant-release" if r == op[2] else "edge-dropped-on-unrelated-release"
+                if r == op[2]:
+                    return "edge-dropped-on-reentrant-release" if op[1] == b else "edge-dropped-on-release-by-non-owner"
+                return "edge-dropped-on-unrelated-release"
             return f"edge-dropped-on-{kind}"
         # the edge became real in this step and was not recorded
         if kind == "acquire" and rname == "preempted" and r == op[2]:
@@ -338,34 +427,64 @@ class Model:
                 return "stale-edge-after-release"
             return f"stale-edge-after-{kind}"
         if kind == "acquire" and rname == "blocked":
-            return "edge-to-dead-owner" if b not in st.live else "bogus-edge-added-on-block"
+            return "edge-to-dead-owner" if b not in st.ctx else "bogus-edge-added-on-block"
         return f"bogus-edge-recorded:{kind}"
 
 
 # ---------------------------------------------------------------- configurations
 
-def _root(ops, res, preempt, init=()):
-    return {"ops": [list(x) for x in ops], "res": list(res), "preempt": list(preempt), "init": [list(x) for x in init]}
+def _acq(*pairs):
+    return [["acquire", o, r] for o, r in pairs]
+
+
+def _root(ops, res, preempt=(), pre=(), late=(), boost=False, wd="plain", exempt=()):
+    """ops: (id, priority, start instant); preempt: resources with allow_preemption; pre: judged prefix applied
+    before the search starts; late: resources registered by a `register` step of the history instead of up front;
+    boost: check_and_boost / clear_all are part of the alphabet; wd: 'plain' = Watchdog(strategy) /
+    'never' = all three timeout options set to a value that cannot fire; exempt: metadata watchdog_exempt=True"""
+    return {"ops": [list(x) for x in ops], "res": list(res), "preempt": list(preempt), "pre": [list(x) for x in pre],
+            "late": list(late), "boost": bool(boost), "wd": wd, "exempt": list(exempt)}
 
 
 R3 = ("r1", "r2", "r3")
 R2 = ("r1", "r2")
-AB = (("A", 0), ("B", 5))
-ABC = (("A", 0), ("B", 0), ("C", 5))
-EACH = (("A", "r1"), ("B", "r2"), ("C", "r3"))  # contention root: every operation already holds one resource
+AB = (("A", 0, 1), ("B", 5, 2))  # the oldest is the lowest priority
+BA = (("A", 5, 1), ("B", -1, 2))  # the oldest is the highest priority; a negative priority
+ABC = (("A", 0, 1), ("B", 0, 2), ("C", 5, 3))  # priority tie between the two oldest
+CBA = (("A", 5, 1), ("B", 0, 2), ("C", 0, 2))  # B and C tie in priority AND in age (same start instant)
+EACH = _acq(("A", "r1"), ("B", "r2"), ("C", "r3"))  # contention: every operation already holds one resource
+CYC2 = _acq(("A", "r1"), ("B", "r2"), ("A", "r2"), ("B", "r1"))  # A <-> B
+CYC3 = EACH + _acq(("A", "r2"), ("B", "r3"), ("C", "r1"))  # A -> B -> C -> A
+TWO = EACH + _acq(("A", "r2"), ("B", "r1"), ("C", "r2"), ("B", "r3"))  # A <-> B and B <-> C share B
+
+_P2 = [_root(AB, R3, boost=True), _root(AB, R3, R3), _root(BA, R3, ("r1",), wd="never", exempt=("A", "B")),
+       _root(BA, R3, ("r2",), late=("r2",))]
+_P2D = [_root(AB, R3, pre=CYC2), _root(BA, R3, ("r3",), pre=CYC2, boost=True, wd="never")]
+_P32 = [_root(ABC, R2), _root(ABC, R2, R2), _root(CBA, R2, ("r1",), boost=True, wd="never")]
+_P33 = [_root(ABC, R3), _root(CBA, R3, ("r1",), late=("r3",), exempt=("B",))]
+_P33E = [_root(ABC, R3, pre=EACH), _root(ABC, R3, R3, pre=EACH)]
+_P33V = [_root(CBA, R3, ("r1",), pre=EACH, boost=True, wd="never")]
+_P33D = [_root(ABC, R3, pre=CYC3), _root(CBA, R3, pre=CYC3, boost=True, wd="never"),
+         _root(ABC, R3, pre=TWO), _root(CBA, R3, pre=TWO, exempt=("B", "C"))]
 
 PLANS = {
     "quick": [
-        ("2ops-3res", [_root(AB, R3, ()), _root(AB, R3, R3), _root(AB, R3, ("r1",))], 6),
-        ("3ops-2res", [_root(ABC, R2, ()), _root(ABC, R2, R2)], 5),
-        ("3ops-3res", [_root(ABC, R3, ()), _root(ABC, R3, ("r1",))], 4),
-        ("3ops-3res-each-holds-one", [_root(ABC, R3, (), EACH), _root(ABC, R3, R3, EACH)], 5),
+        ("2ops-3res", _P2, 7),
+        ("2ops-3res-deadlocked", _P2D, 6),
+        ("3ops-2res", _P32, 6),
+        ("3ops-3res", _P33, 5),
+        ("3ops-3res-each-holds-one", _P33E, 5),
+        ("3ops-3res-each-holds-one-variants", _P33V, 5),
+        ("3ops-3res-deadlocked", _P33D, 5),
     ],
     "thorough": [
-        ("2ops-3res", [_root(AB, R3, ()), _root(AB, R3, R3), _root(AB, R3, ("r1",))], 8),
-        ("3ops-2res", [_root(ABC, R2, ()), _root(ABC, R2, R2), _root(ABC, R2, ("r1",))], 8),
-        ("3ops-3res", [_root(ABC, R3, ()), _root(ABC, R3, R3), _root(ABC, R3, ("r1",))], 6),
-        ("3ops-3res-each-holds-one", [_root(ABC, R3, (), EACH), _root(ABC, R3, R3, EACH), _root(ABC, R3, ("r1",), EACH)], 6),
+        ("2ops-3res", _P2 + [_root(AB, R3, ("r1",))], 8),
+        ("2ops-3res-deadlocked", _P2D, 7),
+        ("3ops-2res", _P32 + [_root(ABC, R2, ("r1",))], 8),
+        ("3ops-3res", _P33 + [_root(ABC, R3, R3), _root(ABC, R3, ("r1",))], 6),
+        ("3ops-3res-each-holds-one", _P33E + [_root(ABC, R3, ("r1",), pre=EACH)], 6),
+        ("3ops-3res-each-holds-one-variants", _P33V, 6),
+        ("3ops-3res-deadlocked", _P33D, 6),
     ],
 }
 
@@ -386,46 +505,83 @@ class _Collect:
             ctx.report(key, what, case)
 
 
+def _judge_prefix(root, col):
+    """the pre-positioning steps go through the same oracle as every other transition; a root whose prefix
+    violates is reported (as a history from the prefix-free root) and not explored"""
+    bare = dict(root, pre=[])
+    m = Model([bare])
+    st = m.build(bare)
+    n = 0
+    for i, op in enumerate(root["pre"]):
+        viols = m.step(st, tuple(op))
+        n += 1
+        if viols:
+            case = {"root": bare, "hist": [tuple(x) for x in root["pre"][:i]], "op": tuple(op)}
+            for key, what in viols:
+                col.report(key, f"after history {case['hist']} op {case['op']}: {what}", case)
+            return n, False
+    return n, True
+
+
 def run(ctx):
-    tot = {"states": 0, "transitions": 0}
+    tot = {"states": 0, "transitions": 0, "prefix_steps": 0}
     per = {}
     exhaustive = True
     col = _Collect(ctx)
     for name, roots, depth in PLANS[ctx.tier]:
-        res = explore.explore(Model(roots), col, depth, label=name)
+        ok_roots = []
+        for root in roots:
+            n, ok = _judge_prefix(root, col)
+            tot["prefix_steps"] += n
+            if ok:
+                ok_roots.append(root)
+        res = explore.explore(Model(ok_roots), col, depth, label=name)
         per[name] = {k: res[k] for k in ("states", "transitions", "depth_completed", "fixpoint", "roots", "frontier_left")}
         per[name]["depth_bound"] = depth
+        per[name]["roots_dropped_prefix_violates"] = len(roots) - len(ok_roots)
         tot["states"] += res["states"]
         tot["transitions"] += res["transitions"]
         exhaustive = exhaustive and (res["fixpoint"] or res["depth_completed"] == depth) and not res["capped"]
     col.flush(ctx)
     ctx.coverage.update(
         states=tot["states"],
-        transitions=tot["transitions"],
-        traces_validated_against_impl=tot["transitions"],
-        evaluations=tot["transitions"],
+        transitions=tot["transitions"] + tot["prefix_steps"],
+        traces_validated_against_impl=tot["transitions"] + tot["prefix_steps"],
+        evaluations=tot["transitions"] + tot["prefix_steps"],
         distinct_nontrivial=tot["states"],
-        rule="BFS over histories of {start, acquire, release, complete, abort, watchdog.execute(priority|oldest)} applied "
-             "to the real CellCycleController/Watchdog (all operations started in the root state, +1 s virtual time per "
-             "step); after EVERY transition check_deadlock() is compared with a wait-for graph recomputed from the "
-             "history's blocked requests and the current ResourceLock owners; distinct/non-trivial = distinct canonical "
-             "state (start order of live ops, owners+hold counts, per-op acquired lists, reference waits, recorded edges "
-             "in insertion order, provenance of differing edges); transitions that violate are reported and not expanded",
+        rule="BFS over histories of {start, acquire, release (by the owner and by others while owned), release_all, complete, abort, "
+             "watchdog.execute(priority|oldest) on two long-lived Watchdog objects, per root also register(resource), "
+             "PriorityInheritance.check_and_boost / clear_all} applied to the real CellCycleController (+1 s virtual time "
+             "per step; roots vary priorities, start instants, preemptible subset, watchdog timeout options, "
+             "watchdog_exempt, and a judged pre-positioning prefix: contention / 2-cycle / 3-cycle / two overlapping "
+             "cycles); after EVERY transition check_deadlock() (asked twice, and through stats()) is compared with a "
+             "wait-for graph recomputed from the RESULTS of the public calls only (owner+hold count per resource, blocked "
+             "requests, live operations); distinct/non-trivial = distinct canonical state (age ranks and dict order of "
+             "live ops, lock owners+hold counts, reference owners, per-op priority/acquired/pending lists, reference "
+             "waits, recorded edges in insertion order, provenance of differing edges, active boosts, kill history of "
+             "each watchdog, registered resources); transitions that violate are reported and not expanded",
         exhaustive=exhaustive,
         depth_bounded=True,
         plans=per,
+        prefix_steps_judged=tot["prefix_steps"],
         max_reentrant_hold=MAX_HOLD,
     )
     ctx.note("reading: an operation whose acquire returned BLOCKED keeps waiting for that resource until it obtains it or "
              "ends, also across a release and re-acquisition by a third operation (it is still unserved and still on the "
              "lock's waiting_list); the narrower reading 'waits only while the owner at block time keeps the resource' "
              "would drop the key waiter-forgotten-after-release and nothing else")
+    ctx.note("reading: after PriorityInheritance.check_and_boost 'lowest-priority member' can mean the priority given at "
+             "start or the boosted one; the victim must be minimal under at least one of the two (the code uses the "
+             "boosted value, the stronger single-reading assertion is not made); an equal start instant / equal priority "
+             "makes every tied member an acceptable victim")
     ctx.assumptions += [
         "histories are bounded by the per-plan depth (all operations already started); no fixpoint is claimed",
-        "priority boosts (PriorityInheritance.check_and_boost) and watchdog timeouts are not part of this alphabet: "
-        "priorities are the ones given at start, the only watchdog events are DEADLOCK events",
+        "watchdog timeouts that fire are not part of this alphabet (the timeout options are None or ~10 years): the only "
+        "watchdog events are DEADLOCK events; operations stay in phase G0 (advance() is not called)",
         "ResourceLock.waiting_list is never read by the controller/watchdog and is left out of the canonical state",
-        "calls on behalf of finished operations (stale contexts) are not issued",
+        "calls on behalf of finished operations (stale contexts) are not issued; a resource id is registered once "
+        "(re-registration under an existing id replaces a lock that may be owned - ownership is then undefined by the "
+        "statement) and never unregistered (no public call does that)",
     ]
 
 
@@ -434,5 +590,6 @@ def replay(ctx, case):
     m = Model(roots)
     st = explore.rebuild(m, case["root"], case["hist"])
     print("  before last op: recorded edges", sorted(impl_edges(st)), "reference edges", sorted(ref_edges(st)),
-          "owners", {r: l.owner for r, l in sorted(st.ctl.resources.items())})
+          "owners by history", {r: c[0] for r, c in sorted(st.own.items())},
+          "lock owners", {r: l.owner for r, l in sorted(st.ctl.resources.items())})
     return m.step(st, case["op"])
